@@ -67,15 +67,15 @@ def step (d : DSt) (toks : List String) : DSt × List String :=
     | _, _ => (d, ["bad-op"])
   | ["trimchunks", key, t, now], some s =>
     match key.toNat?, t.toInt?, now.toInt? with
-    | some key, some t, some now => finishOp [] (TsCache.step s (.trimChunks key t now))
+    | some key, some t, some now => finishOp [] (TsCache.apply s (.trimChunks key t now))
     | _, _, _ => (d, ["bad-op"])
   | ["rmbucket", key, now], some s =>
     match key.toNat?, now.toInt? with
-    | some key, some now => finishOp [] (TsCache.step s (.rmBucket key now))
+    | some key, some now => finishOp [] (TsCache.apply s (.rmBucket key now))
     | _, _ => (d, ["bad-op"])
   | ["reset", now], some s =>
     match now.toInt? with
-    | some now => finishOp [] (TsCache.step s (.reset now))
+    | some now => finishOp [] (TsCache.apply s (.reset now))
     | none => (d, ["bad-op"])
   | ["limits", m, so, now], some s =>
     match m.toInt?, so.toInt?, now.toInt? with
